@@ -46,6 +46,10 @@ impl Out {
             extra: serde_json::Map::new(),
         }
     }
+    /// output directory (for side files of a generator)
+    pub fn dir(&self) -> &str {
+        &self.dir
+    }
     pub fn quick(&self) -> bool {
         self.tier != "thorough"
     }
